@@ -86,7 +86,9 @@ PLAN = {
     "C09": dict(
         streams=[("hist", 12000, 120000)],
         theorems=[],
-        facts=[F + "packageVars_eq", F + "codecVars_eq", F + "initResets_eq", F + "useNumber_eq"],
+        facts=[F + "packageVars_eq", F + "codecVars_eq", F + "initResets_eq", F + "useNumber_eq", F + "scanReset_eq", F + "newScanner_eq",
+               F + "newEncodeState_eq", F + "lastKeys_sites_eq", F + "disallowUnknown_eq", F + "keysMentions_eq", F + "packageVarWrites_eq",
+               F + "decodePool_eq", F + "inputWrites_eq"],
         rule="call histories over a fixed set of prepared calls (Apply with one shared decoded Patch, Equal, MergePatch, CreateMergePatch, "
              "DecodePatch; some malformed or failing), each call repeated at random points, sync.Pools poisoned with adversarial leftovers "
              "in between (VerifPoisonPools); every result is judged against the history-free model byte for byte and inputs are compared "
@@ -95,7 +97,8 @@ PLAN = {
     "C10": dict(
         streams=[("conc", 3000, 30000), ("hist", 3000, 30000)],
         theorems=[],
-        facts=[F + "packageVars_eq", F + "codecVars_eq"],
+        facts=[F + "packageVars_eq", F + "codecVars_eq", F + "scanReset_eq", F + "newScanner_eq", F + "newEncodeState_eq",
+               F + "packageVarWrites_eq", F + "decodePool_eq", F + "inputWrites_eq"],
         rule="4-8 goroutines run random call lists over shared Patch values and shared input slices under the race detector; every result "
              "is judged against the sequential model; non-trivial = agreed with the model, no race report; distinct = distinct request",
     ),
